@@ -5,7 +5,7 @@ package seqio
 import "github.com/go-pars/pars"
 
 //verif:harness prop=C16 quick=1 thorough=1 nomerge=1
-//verif:bounds toOriginLength/fromOriginLength for every n in [0, 4*10^18] (one symbolic n; no loop)
+//verif:bounds the two arithmetic functions toOriginLength/fromOriginLength for every n in [0, 4*10^18] (one symbolic n; no loop); this is consistency of the arithmetic only: the block NewOrigin actually lays out agrees with it while the line index fits nine columns (n <= 1,000,000,020; beyond that NewOrigin panics, an observation recorded in DESIGN §6, outside what the layout harness with n <= 250 runs)
 func VH_C16_length_arith() {
 	n := vIntIn("n", 0, 4000000000000000000)
 	b := toOriginLength(n)
